@@ -327,6 +327,79 @@ func runAlloc(pyDict, su bool, inp []byte) string {
 	return fmt.Sprintf("%d %s", m1.TotalAlloc-m0.TotalAlloc, cls)
 }
 
+// runReenc: decode, then re-encode the result at every protocol and decode that again.
+func runReenc(pyDict, su bool, inp []byte) string {
+	d := og.NewDecoderWithConfig(bytes.NewReader(inp), &og.DecoderConfig{StrictUnicode: su, PyDict: pyDict})
+	v, err, p := decodeOne(d)
+	if p != "" {
+		return "ERR PANIC:" + p
+	}
+	if err != nil {
+		return "ERR " + classify(err)
+	}
+	first := render(v)
+	if first == "TOOBIG" || strings.Contains(first, "#cycle") {
+		return "SKIP " + first[:6]
+	}
+	out := []string{"OK " + first}
+	for proto := 0; proto <= 5; proto++ {
+		w := &chunkWriter{}
+		e := og.NewEncoderWithConfig(w, &og.EncoderConfig{Protocol: proto, StrictUnicode: su})
+		err, p := encodeOne(e, v)
+		if p != "" {
+			out = append(out, fmt.Sprintf("p%d:PANIC:%s", proto, p))
+			continue
+		}
+		if err != nil {
+			out = append(out, fmt.Sprintf("p%d:ENCERR:%s", proto, encClass(err)))
+			continue
+		}
+		d2 := og.NewDecoderWithConfig(bytes.NewReader(bytes.Join(w.chunks, nil)), &og.DecoderConfig{StrictUnicode: su, PyDict: pyDict})
+		v2, err, p := decodeOne(d2)
+		switch {
+		case p != "":
+			out = append(out, fmt.Sprintf("p%d:DECPANIC:%s", proto, p))
+		case err != nil:
+			out = append(out, fmt.Sprintf("p%d:DECERR:%s", proto, classify(err)))
+		case render(v2) == first:
+			out = append(out, fmt.Sprintf("p%d:SAME", proto))
+		default:
+			out = append(out, fmt.Sprintf("p%d:DIFF:%s", proto, strings.ReplaceAll(render(v2), " ", "_")))
+		}
+	}
+	return strings.Join(out, " ")
+}
+
+// runEncW: the same value through differently buffering writers must give the same bytes.
+func runEncW(proto int, su bool, v any) string {
+	enc := func(w io.Writer) (error, string) {
+		e := og.NewEncoderWithConfig(w, &og.EncoderConfig{Protocol: proto, StrictUnicode: su})
+		return encodeOne(e, v)
+	}
+	cw := &chunkWriter{}
+	err1, p1 := enc(cw)
+	var bb bytes.Buffer
+	err2, p2 := enc(&bb)
+	var under bytes.Buffer
+	bw := bufio.NewWriterSize(&under, 16)
+	err3, p3 := enc(bw)
+	bw.Flush()
+	if p1 != "" || p2 != "" || p3 != "" {
+		return "PANIC"
+	}
+	if (err1 == nil) != (err2 == nil) || (err1 == nil) != (err3 == nil) {
+		return "DIFF errors"
+	}
+	if err1 != nil {
+		return "ERR " + encClass(err1)
+	}
+	a := bytes.Join(cw.chunks, nil)
+	if !bytes.Equal(a, bb.Bytes()) || !bytes.Equal(a, under.Bytes()) {
+		return "DIFF bytes"
+	}
+	return "SAME " + strconv.Itoa(len(cw.chunks))
+}
+
 func runConv(pyDict, su bool, inp []byte) string {
 	d := og.NewDecoderWithConfig(bytes.NewReader(inp), &og.DecoderConfig{StrictUnicode: su, PyDict: pyDict})
 	v, err, p := decodeOne(d)
@@ -650,6 +723,32 @@ func handle(line string) string {
 		return runConv(pd, su, []byte(s))
 	case "dict":
 		return runDict(strings.TrimPrefix(line, "dict "))
+	case "reenc":
+		if len(f) != 3 {
+			return "BADCASE"
+		}
+		pd, su, err := parseCfg(f[1])
+		if err != nil {
+			return "BADCASE"
+		}
+		s, err := unhexOrDash(f[2])
+		if err != nil {
+			return "BADCASE"
+		}
+		return runReenc(pd, su, []byte(s))
+	case "encw":
+		if len(f) < 4 {
+			return "BADCASE"
+		}
+		proto, err := strconv.Atoi(f[1])
+		if err != nil {
+			return "BADCASE"
+		}
+		v, err := parseValue(f[3:])
+		if err != nil {
+			return "BADCASE"
+		}
+		return runEncW(proto, f[2] == "1", v)
 	case "long":
 		s, err := unhexOrDash(f[1])
 		if err != nil {
